@@ -12,6 +12,14 @@ import sys
 VERIF = os.path.dirname(os.path.dirname(os.path.abspath(__file__)))
 REPO = os.environ.get("ASPIRE_REPO", "/repo")
 _done = False
+_cov = None
+
+
+def cov_save():
+    if _cov is not None:
+        _cov.stop()
+        _cov.save()
+        _cov.start()
 
 
 def setup(jax_x64=True):
@@ -27,6 +35,17 @@ def setup(jax_x64=True):
     os.environ["JAX_PLATFORMS"] = "cpu"
     os.environ["ASPIRE_VERIF"] = "1"
     src = os.path.join(REPO, "src")
+    if os.environ.get("VERIF_COV"):  # development aid: line/branch coverage of aspire under the checks (never part of a verdict)
+        global _cov
+        import atexit
+
+        import coverage
+
+        os.makedirs(os.environ["VERIF_COV"], exist_ok=True)
+        _cov = coverage.Coverage(data_file=os.path.join(os.environ["VERIF_COV"], ".coverage"), data_suffix=True, branch=True,
+                                 include=[os.path.join(os.path.realpath(src), "aspire", "*")])
+        _cov.start()
+        atexit.register(cov_save)
     stubs = os.path.join(VERIF, "envstubs")
     for p in (stubs, src, VERIF):
         if p in sys.path:
